@@ -32,26 +32,31 @@ type c01World struct {
 	*realWorld
 	keys  map[uint32][2][]byte
 	hport int // a real HTTP listener (handlers.HTTP, its routes and its gin engine) in front of a mock teamserver
+	rport int // another one, configured as sitting behind a redirector (it takes the sender from X-Forwarded-For)
 }
 
 // rawHTTP sends raw bytes to the real HTTP listener and reports the status code of the answer ("none": the connection
 // was closed or stayed silent for 3 s)
-func (w *c01World) rawHTTP(raw []byte) string {
-	if w.hport == 0 {
+func (w *c01World) rawHTTP(raw []byte, redir bool) string {
+	port := &w.hport
+	if redir {
+		port = &w.rport
+	}
+	if *port == 0 {
 		h := handlers.NewConfigHttp()
 		h.Teamserver = mockts.New()
-		w.hport = freePort()
-		h.Config = handlers.HTTPConfig{Name: "c01", Hosts: []string{"127.0.0.1"}, HostBind: "127.0.0.1", PortBind: fmt.Sprint(w.hport), PortConn: fmt.Sprint(w.hport)}
+		*port = freePort()
+		h.Config = handlers.HTTPConfig{Name: "c01", Hosts: []string{"127.0.0.1"}, HostBind: "127.0.0.1", PortBind: fmt.Sprint(*port), PortConn: fmt.Sprint(*port), BehindRedir: redir}
 		h.Start()
 		for i := 0; i < 200; i++ {
-			if cn, err := net.DialTimeout("tcp", fmt.Sprintf("127.0.0.1:%d", w.hport), ms(50)); err == nil {
+			if cn, err := net.DialTimeout("tcp", fmt.Sprintf("127.0.0.1:%d", *port), ms(50)); err == nil {
 				cn.Close()
 				break
 			}
 			time.Sleep(ms(5))
 		}
 	}
-	cn, err := net.DialTimeout("tcp", fmt.Sprintf("127.0.0.1:%d", w.hport), ms(500))
+	cn, err := net.DialTimeout("tcp", fmt.Sprintf("127.0.0.1:%d", *port), ms(500))
 	if err != nil {
 		return "noconn"
 	}
@@ -224,7 +229,7 @@ func (w *c01World) line(c *Ctx, in string) {
 			c.Emit("%s", in)
 		}
 	case "http": // http <raw request hex>: over TCP to the real listener; any request, however framed, is answered
-		c.Emit("%s => reply=%s", in, w.rawHTTP(unhx(parts[1])))
+		c.Emit("%s => reply=%s", in, w.rawHTTP(unhx(parts[1]), len(parts) > 2 && parts[2] == "redir"))
 	case "issue": // issue <id hex> <req>
 		var id, req uint32
 		fmt.Sscanf(parts[1], "%x", &id)
@@ -293,6 +298,11 @@ func runC01(c *Ctx) {
 			} {
 				c.Count("http.framing")
 				w.line(c, "http "+hx([]byte(raw)))
+			}
+			// the listener behind a redirector: with the forwarded-for header, without it (a direct probe), with two of them
+			for _, xff := range []string{"", "X-Forwarded-For: 203.0.113.9\r\n", "X-Forwarded-For: 1.1.1.1\r\nX-Forwarded-For: 2.2.2.2\r\n", "X-Forwarded-For: \r\n"} {
+				c.Count("http.redirector")
+				w.line(c, "http "+hx([]byte(fmt.Sprintf("POST /x HTTP/1.1\r\nHost: h\r\n%sContent-Length: %d\r\n\r\n%s", xff, len(b), b)))+" redir")
 			}
 		}
 	}
